@@ -334,7 +334,8 @@ def gen_gp_twin(rng, nearly_exhausted=False):
     space = h.build_space(spec)
     n = rng.randint(7, 11)
     # mostly suggest / complete, so that observations arrive and model-based steps happen before AND after the snapshot
-    ops = [rng.choice(["suggest", "suggest", "complete", "complete", "report", "error"]) for _ in range(2 * n)]
+    ops = [rng.choice(["suggest", "suggest", "complete", "complete", "report", "error"] +
+                      (["remove"] if kind.startswith("hb-") else [])) for _ in range(2 * n)]
     so = dict(opt_skip_period=rng.choice([1, 2, 3]), opt_skip_init_length=rng.choice([1, 2, 3]),
               num_init_candidates=rng.choice([5, 8, 15]), initial_scoring=rng.choice(["thompson_indep", "acq_func"]))
     if kind.startswith("hb-") and rng.random() < 0.4:
@@ -344,6 +345,22 @@ def gen_gp_twin(rng, nearly_exhausted=False):
                 num_init_random=rng.choice([1, 2, 3]), search_options=so, ops=ops, cuts=cuts, max_suggest=n,
                 metrics=[round(rng.uniform(0, 1), 3) for _ in range(4 * n)], pickle_state=rng.random() < 0.4,
                 order=rng.choice(["sequential", "interleaved"]))
+
+
+def gen_gp_twin_silent(rng, kind):
+    """multi-fidelity GP searcher early in a run, first rung level 3: k trials pending, trial 0 reports up to the first
+    rung, the next suggestion is model-based, then the other trials finish BEFORE the first rung level (no observation;
+    on_trial_complete cleans up their pending evaluations): the number of distinct configurations in the state drops
+    below num_init_random after model-based search has started; snapshots around that point"""
+    k = rng.randint(3, 4)
+    spec = [["lr", "dom", ["uniform", 0.0, 1.0]], ["width", "dom", ["randint", 1, 100]]]
+    hist = ["suggest"] * k + [["report", 0]] * 3 + ["suggest"] + [["complete", i] for i in range(1, k)]
+    cont = ["suggest", ["report", k], "suggest", ["report", k + 1], "suggest"]
+    return dict(kind="gp_twin", sched=kind, spec=spec, pts=[], seed=rng.randrange(10 ** 6), num_init_random=k,
+                grace_period=3, search_options=dict(opt_nstarts=1, opt_maxiter=10), ops=hist + cont, workers=8,
+                cuts=[len(hist) - (k - 1), len(hist) - 1, len(hist)], max_suggest=len(hist) + len(cont),
+                metrics=[round(rng.uniform(0, 1), 3) for _ in range(20)], pickle_state=rng.random() < 0.3,
+                order="sequential", directed_history="trials_finish_before_first_rung_after_first_model_based_suggestion")
 
 
 def rng_state_equal(a, b):
@@ -366,8 +383,11 @@ class Player:
         from syne_tune.backend.trial_status import Trial
         sch, case = self.sch, self.case
         sync = case["sched"] in ("synchb", "dehb")
+        target = None
+        if isinstance(op, (list, tuple)):       # [name, trial id]: the event concerns this running trial
+            op, target = op
         if op == "suggest" or not self.running:
-            if self.n_sug >= case["max_suggest"] or len(self.running) >= (3 if sync else 4):
+            if self.n_sug >= case["max_suggest"] or len(self.running) >= (3 if sync else case.get("workers", 4)):
                 if not self.running:
                     return
                 op = "report"
@@ -399,10 +419,21 @@ class Player:
                             tr = Trial(trial_id=t, config=sg.config, creation_time=h.T0)
                         self.running[t] = tr
                 return
-        t = sorted(self.running)[self.mi % len(self.running)]
+        if op == "remove" and not sync:
+            # a trial ends WITHOUT ever reporting (stopped from outside): the scheduler removes it, multi-fidelity
+            # searchers drop its pending evaluations, and it leaves no observation behind
+            silent = [x for x in sorted(self.running) if self.epoch[x] == 0]
+            if silent:
+                t = silent[0]
+                sch.on_trial_remove(self.running[t])
+                self.trace.append(("removed_without_result", t))
+                del self.running[t]
+                return
+            op = "report"
+        t = target if target in self.running else sorted(self.running)[self.mi % len(self.running)]
         tr = self.running[t]
         self.mi += 1
-        if sync and op in ("error", "complete"):
+        if sync and op in ("error", "complete", "remove"):
             op = "report"
         if op == "error":
             sch.on_trial_error(tr)
@@ -535,8 +566,8 @@ def gen_dill_case(rng, kind):
     space = h.build_space(spec)
     n = rng.randint(5, 8) if gp else rng.randint(8, 30)
     ops = [rng.choice(["suggest", "suggest", "suggest", "report", "report", "complete", "error"]) for _ in range(2 * n)]
-    return dict(kind="dill", sched=kind, spec=spec, pts=h.gen_points(rng, spec, space), seed=rng.randrange(10 ** 6),
-                search_options=dict(opt_nstarts=rng.choice([1, 2])) if gp else None,
+    return dict(kind="dill", sched=kind, mode=rng.choice(["min", "max"]), spec=spec, pts=h.gen_points(rng, spec, space),
+                seed=rng.randrange(10 ** 6), search_options=dict(opt_nstarts=rng.choice([1, 2])) if gp else None,
                 num_init_random=rng.choice([1, 2, 3, 50]), ops=ops, max_suggest=n,
                 cuts=sorted(set([0] + [rng.randint(0, len(ops)) for _ in range(1 if gp else 3)])),
                 metrics=[round(rng.uniform(0, 1), 3) for _ in range(4 * n)])
@@ -558,11 +589,23 @@ def gen_dill_multiworker(rng, kind):
                 directed="checkpoint_with_pending_trial_then_suggest_before_result")
 
 
+def gen_dill_rungs(rng, kind):
+    """Hyperband with random searcher, mode max or min: several trials report at the rung levels before the round trip
+    (rungs hold >= 2 different metric values), then >= 10 further reports"""
+    spec = h.gen_space_spec(rng, finite_only=False, nmax=2, consts=False)
+    n = rng.randint(6, 10)
+    pre = ["suggest"] * 3 + [rng.choice(["report", "report", "report", "suggest"]) for _ in range(rng.randint(8, 16))]
+    post = [rng.choice(["report", "report", "report", "suggest"]) for _ in range(rng.randint(14, 24))]
+    return dict(kind="dill", sched=kind, mode=rng.choice(["max", "max", "min"]), spec=spec, pts=[], seed=rng.randrange(10 ** 6),
+                num_init_random=2, ops=pre + post, max_suggest=n, cuts=[len(pre)],
+                metrics=[round(rng.uniform(0, 1), 3) for _ in range(40)], directed="rungs_filled_before_round_trip")
+
+
 def make_dill_scheduler(case, space):
     kind = case["sched"]
     if kind == "synchb":
         from syne_tune.optimizer.schedulers.synchronous import SynchronousGeometricHyperbandScheduler
-        return SynchronousGeometricHyperbandScheduler(space, searcher="random", metric="m", mode="min",
+        return SynchronousGeometricHyperbandScheduler(space, searcher="random", metric="m", mode=case.get("mode", "min"),
                                                       resource_attr="epoch", max_resource_level=9, grace_period=1,
                                                       reduction_factor=3, random_seed=case["seed"],
                                                       points_to_evaluate=case["pts"],
@@ -570,7 +613,7 @@ def make_dill_scheduler(case, space):
     if kind == "median":
         from syne_tune.optimizer.schedulers import FIFOScheduler
         from syne_tune.optimizer.schedulers.median_stopping_rule import MedianStoppingRule
-        inner = FIFOScheduler(space, searcher="random", metric="m", mode="min", random_seed=case["seed"],
+        inner = FIFOScheduler(space, searcher="random", metric="m", mode=case.get("mode", "min"), random_seed=case["seed"],
                               points_to_evaluate=case["pts"], search_options=dict(debug_log=False))
         return MedianStoppingRule(inner, resource_attr="epoch", metric="m", grace_time=1, grace_population=2)
     return h.make_scheduler(case, space)
@@ -652,8 +695,15 @@ def run(ctx, replay=None):
         cases += [gen_gs_twin(rng) for _ in range(ctx.n(100, 1000))]
         cases += [gen_gp_twin(rng) for _ in range(ctx.n(20, 100))]
         cases += [gen_gp_twin(rng, nearly_exhausted=True) for _ in range(ctx.n(6, 24))]
+        # (HyperTuneSearcher inherits clone_from_state from GPMultiFidelitySearcher, which returns a plain
+        # GPMultiFidelitySearcher while the scheduler's HyperTuneBracketDistribution keeps the invalidated original:
+        # not among the searchers the property lists for this facility; reported to the lead, not generated here)
+        for kind in ("hb-stopping-bayesopt", "hb-promotion-bayesopt"):
+            cases += [gen_gp_twin_silent(rng, kind) for _ in range(ctx.n(3, 12))]
         for kind in ("fifo-bayesopt", "hb-stopping-bayesopt"):
             cases += [gen_dill_multiworker(rng, kind) for _ in range(ctx.n(3, 15))]
+        for kind in ("hb-stopping-random", "hb-promotion-random", "hb-pasha-random"):
+            cases += [gen_dill_rungs(rng, kind) for _ in range(ctx.n(8, 40))]
         for kind in DILL_KINDS:
             cases += [gen_dill_case(rng, kind) for _ in range(ctx.n(6 if "bayesopt" in kind else 16, 40 if "bayesopt" in kind else 150))]
     rc_terms, rc_meta, gc_terms, gc_meta = [], [], [], []
